@@ -172,7 +172,9 @@ def _cases(draw, tier):
             if d != '.byte' and draw(st.integers(0, 4)) == 0:
                 # the text itself ends in the terminator character: the terminator is appended all the same
                 t = general.get('cstr_terminator', 0) & 0xFF
-                chars = list(chars) + [t if 32 <= t < 127 and chr(t) not in '"\'\\;' else ['esc', t, '\\x%02x' % t]]
+                after_nul = bool(chars) and not isinstance(chars[-1], int) and chars[-1][2] == '\\0'     # \0 + digit = octal escape
+                plain = 32 <= t < 127 and chr(t) not in '"\'\\;' and not (after_nul and chr(t) in '01234567')
+                chars = list(chars) + [t if plain else ['esc', t, '\\x%02x' % t]]
                 feats.add('text-ends-in-the-terminator')
             if any(not isinstance(c, int) for c in chars):
                 feats.add('escape')
